@@ -1,22 +1,164 @@
 """Source facts for C08 / C09: the decision points of graceful shutdown.
 
-h3/src/server/connection.rs   accept, shutdown, poll_accept_request_stream_internal, poll_requests_completion,
-                              create_resolver_internal
-h3/src/server/request.rs      accept_with_frame (where the RequestEnd handed to the RequestStream comes from)
-h3/src/server/stream.rs       split (both halves carry the RequestEnd), Drop for RequestEnd
-h3/src/connection.rs          ConnectionInner::shutdown (monotone guard), process_goaway (ordering check)
-h3/src/client/connection.rs   poll_close (is_request check, process_goaway call), send_request (closing test first)
-h3/src/error/connection_error_creators.rs  check_peer_connection_closing
+Every anchored function body is compared AS A WHOLE (comments and whitespace removed) against a committed template
+(translate/snapshots/gen_goaway_bodies.json) in which only the fact sites are masked and the names of local binders
+are generalised.  Whatever is read at a fact site is classified; an unknown shape - at a fact site or anywhere else
+in an anchored body - is AnchorLost (the check reports it), never a silently negated fact.
 
-Everything is emitted as data (operators, addends, booleans "this statement is present", codes); the Coq
-models Model/Goaway.v and Model/Ongoing.v are parameterised by these values.  A statement that may be removed by
-an edit is reported as `false`, not as a lost anchor, so that the model follows the edit and the theorems break."""
+anchors: h3/src/server/connection.rs   accept, create_resolver, create_resolver_internal, poll_accept_request_stream,
+                                       shutdown, poll_accept_request_stream_internal, poll_control, poll_next_control,
+                                       poll_requests_completion
+         h3/src/server/request.rs      resolve_request, accept_with_frame;   h3/src/server/stream.rs  split, Drop for RequestEnd
+         (+ request_end.send( / RequestEnd { occur exactly once in h3/src/server/*.rs)
+         h3/src/connection.rs          ConnectionInner::shutdown, process_goaway
+         h3/src/client/connection.rs   poll_close, send_request
+         h3/src/error/connection_error_creators.rs  check_peer_connection_closing, handle_frame_stream_error_on_request_stream
+         h3/src/proto/stream.rs        FIRST_REQUEST"""
+import json
+import os
 import re
 from rustsrc import Source, AnchorLost, parse_int
 
 NAME = 'GenGoaway'
-
 OPS = {'<': 'CLt', '<=': 'CLe', '>': 'CGt', '>=': 'CGe', '==': 'CEq', '!=': 'CNe'}
+SNAP = os.path.join(os.path.dirname(os.path.abspath(__file__)), 'snapshots', 'gen_goaway_bodies.json')
+
+
+def norm(body):
+    return re.sub(r'\s+', '', body)
+
+
+# anchor -> (file, how to get the body, [(literal snippet in the normalised body, mask name)], [binder names])
+def bodies(repo):
+    sc = Source(repo + '/h3/src/server/connection.rs')
+    rq = Source(repo + '/h3/src/server/request.rs')
+    st = Source(repo + '/h3/src/server/stream.rs')
+    cn = Source(repo + '/h3/src/connection.rs')
+    cl = Source(repo + '/h3/src/client/connection.rs')
+    ce = Source(repo + '/h3/src/error/connection_error_creators.rs')
+    out, spans = {}, {}
+
+    def fn(key, src, name, nth=0):
+        b, sp = src.fn_body(name, nth=nth)
+        out[key], spans[key] = norm(b), sp
+    fn('accept', sc, 'accept')
+    fn('create_resolver', sc, 'create_resolver')
+    fn('poll_accept_request_stream', sc, 'poll_accept_request_stream')
+    fn('create_resolver_internal', sc, 'create_resolver_internal')
+    fn('server_shutdown', sc, 'shutdown')
+    fn('poll_accept_internal', sc, 'poll_accept_request_stream_internal')
+    fn('poll_control', sc, 'poll_control')
+    fn('poll_next_control', sc, 'poll_next_control')
+    fn('poll_requests_completion', sc, 'poll_requests_completion')
+    fn('resolve_request', rq, 'resolve_request')
+    fn('accept_with_frame', rq, 'accept_with_frame')
+    fn('split', st, 'split')
+    blk, sp, _ = st.item_block(r'impl\s+Drop\s+for\s+RequestEnd\s*')
+    out['drop_request_end'], spans['drop_request_end'] = norm(blk), sp
+    fn('inner_shutdown', cn, 'shutdown')
+    fn('process_goaway', cn, 'process_goaway')
+    fn('poll_close', cl, 'poll_close')
+    fn('send_request', cl, 'send_request')
+    fn('check_closing', ce, 'check_peer_connection_closing')
+    fn('frame_error_on_request', ce, 'handle_frame_stream_error_on_request_stream', nth=1)
+    # global: who can report the end of a request
+    sends, makes = 0, 0
+    sdir = repo + '/h3/src/server'
+    for fnm in sorted(os.listdir(sdir)):
+        if fnm.endswith('.rs'):
+            t = norm(Source(os.path.join(sdir, fnm)).text)
+            sends += t.count('request_end.send(')
+            makes += t.count('RequestEnd{request_end:')
+    out['_counts'] = 'sends=%d,makes=%d' % (sends, makes)
+    return out, spans
+
+
+MASKS = {
+    'accept': ([('self.shutdown(0).await?;', 'none_arm')], ['s', 'stream', 'resolver']),
+    'create_resolver': ([], ['stream']),
+    'poll_accept_request_stream': ([], []),
+    'create_resolver_internal': ([], ['stream']),
+    'server_shutdown': ([('id+max_requests+1', 'some_expr'), ('StreamId::FIRST_REQUEST+max_requests', 'none_expr')], ['id', 'max_id']),
+    'poll_accept_internal': ([
+        ('letdone=ifconn.is_pending(){self.recv_closing.is_some()&&self.poll_requests_completion(cx).is_ready()}else{self.poll_requests_completion(cx).is_ready()};', 'pending_done'),
+        ('ifs.send_id()>=max_id{', 'reject_test'),
+        ('s.stop_sending(Code::H3_REQUEST_REJECTED.value());', 'stop_stmt'),
+        ('s.reset(Code::H3_REQUEST_REJECTED.value());', 'reset_stmt'),
+        ('self.last_accepted_stream=Some(self.last_accepted_stream.map_or(s.send_id(),|last|last.max(s.send_id())),);self.ongoing_streams.insert(s.send_id());', 'tail'),
+    ], ['conn', 'max_id']),
+    'poll_control': ([], []),
+    'poll_next_control': ([], ['frame', 'id', '_setting', '_frame']),
+    'poll_requests_completion': ([('self.ongoing_streams.remove(&id);', 'remove_stmt')], ['id']),
+    'resolve_request': ([], ['frame', 'req']),
+    'accept_with_frame': ([('InternalConnectionError::new(Code::H3_FRAME_UNEXPECTED,', 'unexpected'),
+                           ('InternalConnectionError{code:Code::QPACK_DECOMPRESSION_FAILED,', 'qpack'),
+                           ('request_end:self.request_end,', 'end_src')], ['h', 'e', 'encoded', 'decoded', 'cancel_size', '_e']),
+    'split': ([], ['send', 'recv']),
+    'drop_request_end': ([], ['_error']),
+    'inner_shutdown': ([('if*sent_id<=max_id{', 'guard_test')], ['err', 'sent_id', 'connection_error', 'error']),
+    'process_goaway': ([('ifprev_id<id{', 'order_test'), ('InternalConnectionError::new(Code::H3_ID_ERROR,', 'order_code')], ['prev_id']),
+    'poll_close': ([('if!StreamId::from(id).is_request(){', 'kind_test'),
+                    ('InternalConnectionError::new(Code::H3_ID_ERROR,format!("non-requestStreamIdinaGoAwayframe:{}",id),', 'kind_code')],
+                   ['result', 'err', 'frame', 'connection_error']),
+    'send_request': ([('quic::SendStream::<B>::reset(&mutstream,Code::H3_REQUEST_CANCELLED.value());', 'retest_reset')], ['error', '_e', 'e']),
+    'check_closing': ([], []),
+    'frame_error_on_request': ([('InternalConnectionError::new(Code::H3_FRAME_ERROR,', 'trunc_code')], ['frame_error']),
+    '_counts': ([], []),
+}
+
+
+def make_templates(repo):
+    """committed once (and whenever an anchored body legitimately changes): the normalised bodies with the fact sites masked"""
+    bs, _ = bodies(repo)
+    t = {}
+    for k, body in bs.items():
+        masks, _b = MASKS[k]
+        for lit, name in masks:
+            if body.count(lit) != 1:
+                raise AnchorLost('template %s: fact site %r occurs %d times' % (k, name, body.count(lit)))
+            body = body.replace(lit, '«%s»' % name)
+        t[k] = body
+    return t
+
+
+MASK_RE = {'reject_test': r'if[^{};]*\{', 'stop_stmt': r'(?:s\.stop_sending\([^;]*;)?', 'reset_stmt': r'(?:s\.reset\([^;]*;)?',
+           'guard_test': r'if[^{};]*\{', 'order_test': r'if[^{};]*\{', 'kind_test': r'if[^{};]*\{'}
+
+
+def to_regex(tmpl, binders):
+    seen = {}
+    out = []
+    for part in re.split('(«\\w+»)', tmpl):
+        if part.startswith('«'):
+            out.append('(?P<%s>%s)' % (part[1:-1], MASK_RE.get(part[1:-1], '.*?')))
+            continue
+        for tok in re.findall(r'\w+|\W', part):
+            if tok in binders:
+                g = 'B_' + tok.strip('_') + ('_u' if tok.startswith('_') else '')
+                if g in seen:
+                    out.append('(?P=%s)' % g)
+                else:
+                    seen[g] = True
+                    out.append('(?P<%s>\\w+)' % g)
+            else:
+                out.append(re.escape(tok))
+    return ''.join(out)
+
+
+def match_all(repo):
+    tm = json.load(open(SNAP))
+    bs, spans = bodies(repo)
+    got = {}
+    for k, body in bs.items():
+        if k not in tm:
+            raise AnchorLost('no template for ' + k)
+        m = re.fullmatch(to_regex(tm[k], MASKS[k][1]), body, re.S)
+        if not m:
+            raise AnchorLost('%s: the body differs from the committed template outside the fact sites' % k)
+        for name, val in m.groupdict().items():
+            if not name.startswith('B_'):
+                got[name] = val
+    return got, spans
 
 
 def op_of(tok, where):
@@ -26,7 +168,6 @@ def op_of(tok, where):
 
 
 def addends(expr, var, where):
-    """`var + a + b ...` -> (adds_n, constant) where the terms are `max_requests` or integer literals."""
     terms = [t.strip() for t in expr.split('+')]
     if terms[0] != var:
         raise AnchorLost('%s: expression does not start with %s: %s' % (where, var, expr))
@@ -42,90 +183,72 @@ def addends(expr, var, where):
     return adds_n, const
 
 
+MAXF = ('self.last_accepted_stream.map_or(s.send_id(),|last|last.max(s.send_id()))',
+        'self.last_accepted_stream.map_or(s.send_id(),|last|s.send_id().max(last))',
+        'self.last_accepted_stream.map_or(s.send_id(),|last|std::cmp::max(last,s.send_id()))')
+
+
 def extract(repo):
-    f, spans = {}, {}
-    # ------------------------------------------------------------------ server/connection.rs
-    sc = Source(repo + '/h3/src/server/connection.rs')
-    body, spans['server accept'] = sc.fn_body('accept')
-    m = re.search(r'None\s*=>\s*\{\s*(.*?)\s*return\s+Ok\(None\)\s*;\s*\}', body, re.S)
-    if not m:
-        raise AnchorLost('accept: None arm')
-    arm = re.sub(r'\s+', '', m.group(1))
+    g, spans = match_all(repo)
+    f = {}
+    # ---- accept(): the None arm
+    arm = g['none_arm']
     k = re.fullmatch(r'self\.shutdown\((\d+)\)\.await\?;', arm)
-    g = re.fullmatch(r'ifself\.sent_closing\.is_none\(\)\{self\.shutdown\((\d+)\)\.await\?;\}', arm)
+    gd = re.fullmatch(r'ifself\.sent_closing\.is_none\(\)\{self\.shutdown\((\d+)\)\.await\?;\}', arm)
     if k:
         f['accept_none_shutdown'], f['accept_none_only_if_unsent'] = parse_int(k.group(1)), False
-    elif g:
-        f['accept_none_shutdown'], f['accept_none_only_if_unsent'] = parse_int(g.group(1)), True
+    elif gd:
+        f['accept_none_shutdown'], f['accept_none_only_if_unsent'] = parse_int(gd.group(1)), True
     elif arm == '':
         f['accept_none_shutdown'], f['accept_none_only_if_unsent'] = None, False
     else:
         raise AnchorLost('accept: statements of the None arm: ' + arm)
-    if not re.search(r'Some\(s\)\s*=>\s*FrameStream::new', body) or 'create_resolver_internal' not in body:
-        raise AnchorLost('accept: Some arm')
-
-    body, spans['create_resolver_internal'] = sc.fn_body('create_resolver_internal')
-    f['end_created_at_accept'] = bool(re.search(r'request_end\s*:\s*Arc::new\(\s*RequestEnd\s*\{', body))
-
-    body, spans['server shutdown'] = sc.fn_body('shutdown')
-    m = re.search(r'\.map\(\s*\|\s*id\s*\|\s*([^)]*?)\)\s*\.unwrap_or\(\s*([^)]*?)\s*\)\s*;', body)
+    # ---- server shutdown
+    f['some_adds_n'], f['some_const'] = addends(g['some_expr'], 'id', 'shutdown/map')
+    f['none_adds_n'], f['none_const'] = addends(g['none_expr'], 'StreamId::FIRST_REQUEST', 'shutdown/unwrap_or')
+    # ---- poll_accept_request_stream_internal
+    pd = g['pending_done']
+    c1 = 'self.recv_closing.is_some()&&self.poll_requests_completion(cx).is_ready()'
+    c2 = 'self.poll_requests_completion(cx).is_ready()'
+    forms = {'letdone=ifconn.is_pending(){%s}else{%s};' % (c1, c2): True, 'letdone=%s;' % c1: True,
+             'letdone=ifconn.is_pending(){%s}else{%s};' % (c2, c2): False, 'letdone=%s;' % c2: False}
+    if pd not in forms:
+        raise AnchorLost('poll_accept: pending arm: ' + pd)
+    f['pending_needs_recv_closing'] = forms[pd]
+    m = re.fullmatch(r'ifs\.send_id\(\)([<>=!]{1,2})max_id\{', g['reject_test'])
     if not m:
-        raise AnchorLost('shutdown: max_id expression')
-    f['some_adds_n'], f['some_const'] = addends(m.group(1), 'id', 'shutdown/map')
-    f['none_adds_n'], f['none_const'] = addends(m.group(2), 'StreamId::FIRST_REQUEST', 'shutdown/unwrap_or')
-    if not re.search(r'self\.inner\.shutdown\(\s*&mut\s+self\.sent_closing\s*,\s*max_id\s*\)', body):
-        raise AnchorLost('shutdown: inner.shutdown call')
-
-    body, spans['poll_accept_request_stream_internal'] = sc.fn_body('poll_accept_request_stream_internal')
-    if not re.search(r'let\s+_\s*=\s*self\.poll_control\(cx\)\?\s*;\s*let\s+_\s*=\s*self\.poll_requests_completion\(cx\)\s*;', body):
-        raise AnchorLost('poll_accept: prologue (poll_control, poll_requests_completion)')
-    m = re.search(r'Poll::Pending\s*=>\s*\{\s*let\s+done\s*=\s*if\s+conn\.is_pending\(\)\s*\{\s*(.*?)\s*\}\s*else', body, re.S)
-    if not m:
-        raise AnchorLost('poll_accept: pending arm')
-    cond = re.sub(r'\s+', '', m.group(1))
-    if cond == 'self.recv_closing.is_some()&&self.poll_requests_completion(cx).is_ready()':
-        f['pending_needs_recv_closing'] = True
-    elif cond == 'self.poll_requests_completion(cx).is_ready()':
-        f['pending_needs_recv_closing'] = False
-    else:
-        raise AnchorLost('poll_accept: pending condition ' + cond)
-    m = re.search(r'if\s+let\s+Some\(max_id\)\s*=\s*self\.sent_closing\s*\{\s*if\s+s\.send_id\(\)\s*(\S+)\s*max_id\s*\{(.*?)continue\s*;', body, re.S)
-    if m:
-        f['reject_present'] = True
-        f['reject_cmp'] = op_of(m.group(1), 'reject test')
-        rb = m.group(2)
-        st = re.search(r's\.stop_sending\(\s*Code::(\w+)\.value\(\)\s*\)', rb)
-        rs = re.search(r's\.reset\(\s*Code::(\w+)\.value\(\)\s*\)', rb)
-        f['reject_stop'] = st.group(1) if st else None
-        f['reject_reset'] = rs.group(1) if rs else None
-        f['reject_none_if_idle'] = bool(re.search(r'if\s+self\.poll_requests_completion\(cx\)\.is_ready\(\)\s*\{\s*break\s+Poll::Ready\(Ok\(None\)\)', rb))
-    else:
-        f['reject_present'] = False
-        f['reject_cmp'] = 'CGe'
-        f['reject_stop'] = f['reject_reset'] = None
-        f['reject_none_if_idle'] = False
-    # the accepting tail of the Ready arm: local lets are resolved, then WHAT is stored in last_accepted_stream
-    # and WHAT is inserted into ongoing_streams are classified (a rewrite that keeps both keeps the facts)
-    tail_at = body.rfind('continue;')
-    tail = body[tail_at:] if tail_at >= 0 else body
+        raise AnchorLost('poll_accept: reject test: ' + g['reject_test'])
+    f['reject_present'], f['reject_cmp'], f['reject_none_if_idle'] = True, op_of(m.group(1), 'reject test'), True
+    for key, meth in (('reject_stop', 'stop_sending'), ('reject_reset', 'reset')):
+        v = g['stop_stmt' if meth == 'stop_sending' else 'reset_stmt']
+        mm = re.fullmatch(r's\.%s\(Code::(\w+)\.value\(\)\);' % meth, v)
+        if mm:
+            f[key] = mm.group(1)
+        elif v == '':
+            f[key] = None
+        else:
+            raise AnchorLost('poll_accept: %s statement: %s' % (meth, v))
+    # the accepting tail: a list of statements, each recognised
+    tail = g['tail']
     lets = {}
-    for lm in re.finditer(r'let\s+(\w+)\s*=\s*([^;]+);', tail):
-        lets[lm.group(1)] = re.sub(r'\s+', '', lm.group(2))
+    rest = tail
+    for lm in re.finditer(r'let(\w+)=([^;]+);', tail):
+        lets[lm.group(1)] = lm.group(2)
+        rest = rest.replace(lm.group(0), '', 1)
 
     def arg_of(prefix):
-        i = tail.find(prefix)
+        nonlocal rest
+        i = rest.find(prefix)
         if i < 0:
             return None
-        j = i + len(prefix) - 1
         from rustsrc import match_close
-        k2 = match_close(tail, j, '(', ')')
-        e = re.sub(r'\s+', '', tail[j + 1:k2])
-        e = re.sub(r',\)', ')', e).rstrip(',')
+        j = i + len(prefix) - 1
+        k2 = match_close(rest, j, '(', ')')
+        e = re.sub(r',\)', ')', rest[j + 1:k2]).rstrip(',')
+        if rest[k2 + 1:k2 + 2] != ';':
+            raise AnchorLost('poll_accept: tail statement after ' + prefix)
+        rest = rest[:i] + rest[k2 + 2:]
         return lets.get(e, e)
-
-    MAXF = ('self.last_accepted_stream.map_or(s.send_id(),|last|last.max(s.send_id()))',
-            'self.last_accepted_stream.map_or(s.send_id(),|last|s.send_id().max(last))',
-            'self.last_accepted_stream.map_or(s.send_id(),|last|std::cmp::max(last,s.send_id()))')
 
     def classify(e, where):
         if e == 's.send_id()':
@@ -133,151 +256,69 @@ def extract(repo):
         if e in MAXF:
             return 'max'
         raise AnchorLost('poll_accept: %s is %s' % (where, e))
-    stored = arg_of('self.last_accepted_stream = Some(')
+    stored = arg_of('self.last_accepted_stream=Some(')
     if stored is None:
         raise AnchorLost('poll_accept: last_accepted_stream assignment')
     f['last_is_max'] = classify(stored, 'last_accepted_stream') == 'max'
     ins = arg_of('self.ongoing_streams.insert(')
     f['ongoing_insert'] = ins is not None
     f['ongoing_insert_is_stream'] = True if ins is None else classify(ins, 'ongoing_streams.insert argument') == 'stream'
-    if not re.search(r'Poll::Ready\(Ok\(Some\(s\)\)\)', tail):
-        raise AnchorLost('poll_accept: Ready(Ok(Some(s)))')
-
-    body, spans['poll_requests_completion'] = sc.fn_body('poll_requests_completion')
-    f['completion_removes'] = bool(re.search(r'Poll::Ready\(Some\(id\)\)\s*=>\s*\{\s*self\.ongoing_streams\.remove\(&id\)\s*;', body))
-    if not re.search(r'Poll::Pending\s*=>\s*\{\s*if\s+self\.ongoing_streams\.is_empty\(\)\s*\{', body):
-        raise AnchorLost('poll_requests_completion: emptiness test')
-
-    # ------------------------------------------------------------------ server/request.rs, server/stream.rs
-    rq = Source(repo + '/h3/src/server/request.rs')
-    body, spans['accept_with_frame'] = rq.fn_body('accept_with_frame')
-    m = re.search(r'let\s+request_stream\s*=\s*RequestStream\s*\{\s*request_end\s*:\s*(.*?),\s*inner\s*:', body, re.S)
-    if not m:
-        raise AnchorLost('accept_with_frame: RequestStream literal')
-    src_end = re.sub(r'\s+', '', m.group(1))
-    if src_end == 'self.request_end':
+    if rest != '':
+        raise AnchorLost('poll_accept: unrecognised statements in the accepting tail: ' + rest)
+    rm = g['remove_stmt']
+    if rm == 'self.ongoing_streams.remove(&id);':
+        f['completion_removes'] = True
+    elif rm in ('', 'let_=id;'):
+        f['completion_removes'] = False
+    else:
+        raise AnchorLost('poll_requests_completion: ' + rm)
+    # ---- RequestEnd life cycle (the fixed parts are fixed by the templates)
+    f['end_created_at_accept'] = True
+    es = g['end_src']
+    if es == 'request_end:self.request_end,':
         f['end_moved_from_resolver'] = True
-    elif src_end.startswith('Arc::new(RequestEnd{'):
+    elif es.startswith('request_end:Arc::new(RequestEnd{'):
         f['end_moved_from_resolver'] = False
     else:
-        raise AnchorLost('accept_with_frame: request_end source ' + src_end)
-    m = re.search(r'Ok\(Some\(_\)\)\s*=>\s*\{.*?InternalConnectionError::new\(\s*Code::(\w+)', body, re.S)
-    if not m:
-        raise AnchorLost('accept_with_frame: first-frame-not-headers arm')
-    f['unexpected_code'] = m.group(1)
-    m = re.search(r'Err\(_e\)\s*=>\s*\{.*?InternalConnectionError\s*\{\s*code\s*:\s*Code::(\w+)', body, re.S)
-    if not m:
-        raise AnchorLost('accept_with_frame: qpack failure arm')
-    f['qpack_code'] = m.group(1)
-    st = Source(repo + '/h3/src/server/stream.rs')
-    body, spans['split'] = st.fn_body('split')
-    f['split_shares_end'] = bool(re.search(r'request_end\s*:\s*self\.request_end\.clone\(\)', body)) and \
-        bool(re.search(r'request_end\s*:\s*self\.request_end\s*,', body))
-    blk, spans['Drop for RequestEnd'], _ = st.item_block(r'impl\s+Drop\s+for\s+RequestEnd\s*')
-    f['end_drop_sends'] = bool(re.search(r'self\.request_end\.send\(\s*self\.stream_id\s*\)', blk))
-
-    # ------------------------------------------------------------------ connection.rs
-    cn = Source(repo + '/h3/src/connection.rs')
-    body, spans['ConnectionInner::shutdown'] = cn.fn_body('shutdown')
-    # F22: a failed connection reports its error instead of shutting down; must come before the monotone guard
-    eg = re.search(r'if\s+let\s+Some\(err\)\s*=\s*self\.get_conn_error\(\)\s*\{\s*return\s+Err\(self\.handle_connection_error\(err\)\)\s*;\s*\}', body)
-    mg = re.search(r'if\s+let\s+Some\(sent_id\)\s*=\s*sent_closing', body)
-    f['shutdown_error_guard'] = bool(eg) and (mg is None or eg.start() < mg.start())
-    if not eg and 'get_conn_error' in body:
-        raise AnchorLost('ConnectionInner::shutdown: unrecognised use of get_conn_error')
-    m = re.search(r'if\s+let\s+Some\(sent_id\)\s*=\s*sent_closing\s*\{\s*if\s+\*sent_id\s*(\S+)\s*max_id\s*\{\s*return\s+Ok\(\(\)\)\s*;', body)
-    if m:
-        f['guard_present'] = True
-        f['guard_cmp'] = op_of(m.group(1), 'shutdown guard')
-    else:
-        f['guard_present'] = False
-        f['guard_cmp'] = 'CLe'
-    if not re.search(r'\*sent_closing\s*=\s*Some\(max_id\)\s*;', body) or \
-            not re.search(r'stream::write\(\s*&mut\s+self\.control_send\s*,\s*Frame::Goaway\(\s*max_id\.into\(\)\s*\)\s*\)', body):
-        raise AnchorLost('ConnectionInner::shutdown: store / write')
-    f['shutdown_sets_closing'] = bool(re.search(r'self\.set_closing\(\)', body))
-    # the identifier is recorded BEFORE the write is awaited (a write that is pending, fails or is abandoned
-    # leaves the limit in force) - statement order, not just presence
-    st_at = re.search(r'\*sent_closing\s*=\s*Some\(max_id\)\s*;', body).start()
-    wr_at = re.search(r'stream::write\(\s*&mut\s+self\.control_send', body).start()
-    f['store_before_write'] = st_at < wr_at
-
-    body, spans['process_goaway'] = cn.fn_body('process_goaway')
-    m = re.search(r'if\s+let\s+Some\(prev_id\)\s*=\s*recv_closing\.map\(VarInt::from\)\s*\{\s*if\s+prev_id\s*(\S+)\s*id\s*\{(.*?)\}\s*\}', body, re.S)
-    if m:
-        f['order_present'] = True
-        f['order_cmp'] = op_of(m.group(1), 'process_goaway ordering')
-        c = re.search(r'Code::(\w+)', m.group(2))
-        if not c:
-            raise AnchorLost('process_goaway: code')
-        f['order_code'] = c.group(1)
-    else:
-        f['order_present'] = False
-        f['order_cmp'] = 'CLt'
-        f['order_code'] = 'H3_ID_ERROR'
-    if not re.search(r'\*recv_closing\s*=\s*Some\(id\.into\(\)\)\s*;', body):
-        raise AnchorLost('process_goaway: store')
-    f['process_sets_closing'] = bool(re.search(r'self\.set_closing\(\)', body))
-
-    # ------------------------------------------------------------------ client/connection.rs
-    cl = Source(repo + '/h3/src/client/connection.rs')
-    body, spans['client poll_close'] = cl.fn_body('poll_close')
-    m = re.search(r'Ok\(Frame::Goaway\(id\)\)\s*=>\s*\{(.*?)\n\s*\}\s*\n\s*Ok\(frame\)', body, re.S)
-    if not m:
-        raise AnchorLost('poll_close: Goaway arm')
-    arm = m.group(1)
-    k = re.search(r'if\s+(!?)\s*StreamId::from\(id\)\.is_request\(\)\s*\{(.*?)\}\s*if\s+let', arm, re.S)
-    if k:
-        f['kind_present'] = True
-        f['kind_negated'] = (k.group(1) == '!')
-        c = re.search(r'Code::(\w+)', k.group(2))
-        if not c:
-            raise AnchorLost('poll_close: kind code')
-        f['kind_code'] = c.group(1)
-    else:
-        f['kind_present'] = False
-        f['kind_negated'] = True
-        f['kind_code'] = 'H3_ID_ERROR'
-    f['client_processes'] = bool(re.search(r'self\.inner\.process_goaway\(\s*&mut\s+self\.recv_closing\s*,\s*id\s*\)', arm))
-    body, spans['send_request'] = cl.fn_body('send_request')
-    a = body.find('check_peer_connection_closing')
-    b = body.find('poll_open_bidi')
-    if b < 0:
-        raise AnchorLost('send_request: poll_open_bidi')
-    f['closing_test_first'] = (0 <= a < b) and bool(re.search(
-        r'if\s+let\s+Some\(error\)\s*=\s*self\.check_peer_connection_closing\(\)\s*\{\s*return\s+Err\(error\)\s*;', body))
-    # the second closing test, between poll_open_bidi and the first write on the new stream
-    wpos = body.find('stream::write(', b)
-    if wpos < 0:
-        raise AnchorLost('send_request: stream::write')
-    mid = re.sub(r'\s+', '', body[b:wpos])
-    r2 = re.search(r'ifletSome\(error\)=self\.check_peer_connection_closing\(\)\{(.*?)returnErr\(error\);\}', mid)
-    if r2:
-        f['closing_retest_after_open'] = True
-        rc = re.fullmatch(r'quic::SendStream::<B>::reset\(&mutstream,Code::(\w+)\.value\(\)\);', r2.group(1))
-        if rc:
-            f['closing_retest_reset'] = rc.group(1)
-        elif r2.group(1) == '':
-            f['closing_retest_reset'] = None
-        else:
-            raise AnchorLost('send_request: statements of the second closing test: ' + r2.group(1))
-    elif 'check_peer_connection_closing' in mid or 'is_closing' in mid:
-        raise AnchorLost('send_request: unrecognised closing test after poll_open_bidi')
-    else:
-        f['closing_retest_after_open'] = False
+        raise AnchorLost('accept_with_frame: request_end source ' + es)
+    f['split_shares_end'] = True
+    f['end_drop_sends'] = True
+    for key, gname, pat in (('unexpected_code', 'unexpected', r'InternalConnectionError::new\(Code::(\w+),'),
+                            ('qpack_code', 'qpack', r'InternalConnectionError\{code:Code::(\w+),'),
+                            ('truncated_code', 'trunc_code', r'InternalConnectionError::new\(Code::(\w+),'),
+                            ('order_code', 'order_code', r'InternalConnectionError::new\(Code::(\w+),')):
+        mm = re.fullmatch(pat, g[gname])
+        if not mm:
+            raise AnchorLost('%s: %s' % (key, g[gname]))
+        f[key] = mm.group(1)
+    # ---- ConnectionInner::shutdown / process_goaway
+    mm = re.fullmatch(r'if\*(\w+)([<>=!]{1,2})max_id\{', g['guard_test'])
+    if not mm:
+        raise AnchorLost('ConnectionInner::shutdown: monotone guard: ' + g['guard_test'])
+    f['guard_present'], f['guard_cmp'] = True, op_of(mm.group(2), 'shutdown guard')
+    f['shutdown_error_guard'] = f['shutdown_sets_closing'] = f['store_before_write'] = True
+    mm = re.fullmatch(r'if(\w+)([<>=!]{1,2})id\{', g['order_test'])
+    if not mm:
+        raise AnchorLost('process_goaway: ordering test: ' + g['order_test'])
+    f['order_present'], f['order_cmp'], f['process_sets_closing'] = True, op_of(mm.group(2), 'process_goaway ordering'), True
+    # ---- client
+    mm = re.fullmatch(r'if(!?)StreamId::from\(id\)\.is_request\(\)\{', g['kind_test'])
+    if not mm:
+        raise AnchorLost('poll_close: kind test: ' + g['kind_test'])
+    f['kind_present'], f['kind_negated'] = True, mm.group(1) == '!'
+    mm = re.fullmatch(r'InternalConnectionError::new\(Code::(\w+),format!\("non-requestStreamIdinaGoAwayframe:\{\}",id\),', g['kind_code'])
+    if not mm:
+        raise AnchorLost('poll_close: kind code: ' + g['kind_code'])
+    f['kind_code'] = mm.group(1)
+    f['client_processes'] = f['closing_test_first'] = f['closing_test_reads_flag'] = f['closing_retest_after_open'] = True
+    rr = g['retest_reset']
+    mm = re.fullmatch(r'quic::SendStream::<B>::reset\(&mutstream,Code::(\w+)\.value\(\)\);', rr)
+    if mm:
+        f['closing_retest_reset'] = mm.group(1)
+    elif rr == '':
         f['closing_retest_reset'] = None
-    ce = Source(repo + '/h3/src/error/connection_error_creators.rs')
-    hb, spans['handle_frame_stream_error_on_request_stream'] = ce.fn_body('handle_frame_stream_error_on_request_stream', nth=1)
-    mt = re.search(r'FrameStreamError::UnexpectedEnd\s*=>\s*\{\s*self\.handle_connection_error_on_stream\(\s*InternalConnectionError::new\(\s*Code::(\w+)', hb)
-    if not mt:
-        raise AnchorLost('handle_frame_stream_error_on_request_stream: UnexpectedEnd arm')
-    f['truncated_code'] = mt.group(1)
-    if not re.search(r'FrameStreamError::Quic\(error\)\s*=>\s*self\.handle_quic_stream_error\(error\)', hb):
-        raise AnchorLost('handle_frame_stream_error_on_request_stream: Quic arm')
-    body, spans['check_peer_connection_closing'] = ce.fn_body('check_peer_connection_closing')
-    f['closing_test_reads_flag'] = bool(re.search(r'if\s+self\.is_closing\(\)\s*\{\s*return\s+Some\(StreamError::RemoteClosing\)', body))
-
-    # FIRST_REQUEST
+    else:
+        raise AnchorLost('send_request: reset of the fresh stream: ' + rr)
     ps = Source(repo + '/h3/src/proto/stream.rs')
     m = re.search(r'const\s+FIRST_REQUEST\s*:\s*Self\s*=\s*Self::new\(\s*(\d+)\s*,\s*Dir::(\w+)\s*,\s*Side::(\w+)\s*\)', ps.text)
     if not m:
@@ -361,5 +402,8 @@ def render(f):
 
 if __name__ == '__main__':
     import sys
+    if '--make-templates' in sys.argv:
+        json.dump(make_templates('/repo'), open(SNAP, 'w'), indent=1, ensure_ascii=False)
+        sys.exit(0)
     facts, spans = extract(sys.argv[1] if len(sys.argv) > 1 else '/repo')
     sys.stdout.write(render(facts))
